@@ -1473,6 +1473,7 @@ class composite_if(x12_node):
         @rtype: boolean
         """
         valid = True
+        errh.add_ele(self)
         if (comp_data is None or comp_data.is_empty()) and self.usage in ('N', 'S'):
             return True
 
